@@ -195,17 +195,22 @@ def _sympy_tokens(string, ids):
     return walk(tree)
 
 def _roles_case(case):
-    import numpy as np
+    import numpy as np, pickle
     from bioscrape.types import Model
     out = {"builds": []}
-    for b in case["builds"]:
+    for bi, b in enumerate(case["builds"]):
         M = Model(species=list(b["species"]) + ["OUT"], reactions=[([], ["OUT"], "general", {"rate": case["string"]})], parameters=[(p, 1.0) for p in b["params"]],
                   initial_condition_dict={s_: 1.0 for s_ in b["species"]})
+        if bi % 2 == 1:
+            # every other build: the model is copied, and the COPY is extended with a new parameter and a new general reaction before
+            # the original expression is evaluated on it (a name added later must get a slot of its own)  -- seeded change S3_C02
+            M = pickle.loads(pickle.dumps(M)); M.create_parameter("added_later", 5.5)
+            M.create_reaction([], ["OUT"], "general", {"rate": "added_later + 0*" + (b["species"][0] if b["species"] else "OUT")}); M.py_initialize()
         term = M.get_propensities()[0].py_get_term(); s2i, p2i = M.get_species2index(), M.get_params2index(); vals = []
         for pt in case["points"]:
             x = np.zeros(len(s2i)); pv = np.zeros(len(p2i))
             for s_, i in s2i.items(): x[i] = pt["env"].get(s_, 7.0)          # padding names read 7 / 9: a shifted read shows
-            for p_, i in p2i.items(): pv[i] = pt["env"].get(p_, 9.0)
+            for p_, i in sorted(p2i.items(), key=lambda kv: kv[0] == "added_later"): pv[i] = pt["env"].get(p_, 9.0 if p_ != "added_later" else 55.5)   # 'added_later' is written last: a slot it shares with an older name shows
             try: vals.append(fhex(float(term.py_evaluate(x, pv, pt["env"]["t"]))))
             except BaseException as e: vals.append(None)
         out["builds"].append(vals)
